@@ -79,9 +79,10 @@ Record cresponse : Type := mkCResp {
   cr_status : Z;                         (* SetStatusCode; 0 = never set *)
   cr_cl : Z;                             (* Header.SetContentLength; -3 = never set *)
   cr_fields : list (bytes * bytes);      (* Header.AddBytesKV, in order *)
-  cr_body : bytes                        (* AppendBody *)
+  cr_body : list bytes                   (* AppendBody: the pieces appended, in order; Body() is their concatenation *)
 }.
 Definition cl_empty_resp : cresponse := mkCResp 0 (-3) [] [].
+Definition cl_resp_body (r : cresponse) : bytes := concat (cr_body r).
 
 (* ---------- what the client writes, and what callers observe ---------- *)
 
@@ -357,7 +358,7 @@ Definition cl_write_data (maxFrame : N) (sid : N) (body : bytes) (endb : bool) :
 Definition cl_resp_set_status (r : cresponse) (n : Z) := mkCResp n (cr_cl r) (cr_fields r) (cr_body r).
 Definition cl_resp_set_cl (r : cresponse) (n : Z) := mkCResp (cr_status r) n (cr_fields r) (cr_body r).
 Definition cl_resp_add_field (r : cresponse) (k v : bytes) := mkCResp (cr_status r) (cr_cl r) (cr_fields r ++ [(k, v)]) (cr_body r).
-Definition cl_resp_append_body (r : cresponse) (d : bytes) := mkCResp (cr_status r) (cr_cl r) (cr_fields r) (cr_body r ++ d).
+Definition cl_resp_append_body (r : cresponse) (d : bytes) := mkCResp (cr_status r) (cr_cl r) (cr_fields r) (cr_body r ++ [d]).
 
 (* readHeaderField: (hdrRegularSeen, hdrStatus, res) and the error *)
 Definition cl_read_header_field (rseen : bool) (status : Z) (r : cresponse) (k v : bytes)
